@@ -27,6 +27,7 @@ import rsx
 from rsx import Edit, LostAnchor
 
 REPO = os.environ.get('VERIF_REPO', '/repo')
+VERIF_ROOT = os.path.dirname(os.path.dirname(os.path.abspath(__file__)))
 # sensitivity self-test only: {relative path: text} consulted before /repo (never written anywhere)
 import threading
 _TL = threading.local()
@@ -942,7 +943,7 @@ def assemble(template: str, defines: set | None = None) -> Assembled:
         while mod_stack and depth <= mod_stack[-1][1]:
             mod_stack.pop()
         out_lines.append(line)
-        origins.append(('T:' + os.path.relpath(org[0], '/verif'), org[1]))
+        origins.append(('T:' + os.path.relpath(org[0], VERIF_ROOT), org[1]))
         i += 1
     return Assembled('\n'.join(out_lines) + '\n', origins, items, log, template)
 
